@@ -313,7 +313,7 @@ var corpus = []string{
 	"\"x\"^^type:", "\"x\"^^type:foo", "\"x\"^^type:INT64", "\"x\"^^TYPE:int64", "\"1\"^^type:İnt64", "\"1\"^^type:int64x", "\"1\"^^type:int64é",
 	"ſelect", "K", "asK", "aſ", "ſ", "deſc", "é", "?é", "\xc3", "\xff\xfe", "a\xc3(",
 	"select ?x", "select ?x", "١", "before ١", "{}();.,<>=", "select.", "group by", "GROUPBY",
-	"\"p\"@[] \"x\"^^type:text", "\"x\"^^type:text \"p\"@[]", "\"x\" \"p\"@[]", "\"@[\"^^type:text",
+	"\"p\"@[] \"x\"^^type:text", "\"x\"^^type:text \"p\"@[]", "\"x\" \"p\"@[]", "\"@[\"^^type:text", "\"@[x\"@[]", "\"^^type:\"@[]",
 }
 
 func main() {
@@ -454,7 +454,7 @@ func main() {
 	// ---- printed forms of values built through the API
 	if want("printed") {
 		ids := []string{"a", "a b", "a\\", "\\", "a\\\\", "é", "a@[", "^^type:", "a,b", "x]y", "a\"b", "\"", "a\\b", "joe@x.com", "1", "a\tb", "a;b", "a\\\"",
-			"\"@[", "x\"^^type:text", "世", "a\nb", "[1 2]", "a\"@[]"}
+			"\"@[", "x\"^^type:text", "世", "a\nb", "[1 2]", "a\"@[]", "@[x", "@", "^", "^^type:int64", "a^^type:", "a@[]"}
 		types := []string{"/u", "/t/x", "/_", "/a>", "/a<", "/a\\", "/é", "/a\\b"}
 		ts := []time.Time{time.Unix(0, 0).UTC(), time.Date(2006, 1, 2, 15, 4, 5, 999999999, time.FixedZone("x", 7*3600)), time.Date(1, 1, 1, 0, 0, 0, 0, time.UTC)}
 		pr := func(form, s string, kind lexer.TokenType, part string) {
